@@ -1397,4 +1397,4 @@ mod tests {
 
 #[cfg(kani)]
 #[path = "/verif/harness/teos/watcher.rs"]
-mod verif_harness;
+pub(crate) mod verif_harness;
